@@ -50,7 +50,7 @@ class NativeType:
 # Native C types and sizes that are supported
 supported_types = {
     "char": NativeType(name="char", size=1, format="c"),
-    "signed char": NativeType(name="signed_char", size=1, format="b"),
+    "signed char": NativeType(name="signed char", size=1, format="b"),
     "unsigned char": NativeType(name="unsigned char", size=1, format="B"),
     "byte": NativeType(name="byte", size=1, format="B"),
     "int": NativeType(name="int", size=4, format="i"),
@@ -877,6 +877,7 @@ class Parser:
         # Field type name to ctypes
         type_map = {
             "char": ctypes.c_char,
+            "signed char": ctypes.c_int8,
             "unsigned char": ctypes.c_ubyte,
             "byte": ctypes.c_ubyte,
             "int": ctypes.c_int32,
